@@ -395,9 +395,14 @@ def build(template_path, repo, variant="strict", inline=None):
                 toks = R.desugar_option_calls(toks, inline["__desugar__"], log, where)
             # R20 first: the unit's cuts and subs then see the helper's text as part of the function, as they did before the
             # helper was split off
+            n_inl_ = len(log)
             for hname, helper in inline.items():
                 if hname != "__desugar__" and hname != item.name:
                     toks = R.inline_helper(toks, helper, log, where)
+            if any(r_[0] == "R20" for r_ in log[n_inl_:]):
+                # the inlined helper text has not been through the automatic rules yet (format!, println!, assert!, from_*_bytes ..);
+                # they are idempotent on the text that has
+                toks = _apply_rules(toks, opts["rules"], log, where, item.kind)
         for (tag, pat, optional) in opts.get("cuts", []):
             try:
                 toks = R.cut_statement(toks, pat, tag, log, where)
@@ -465,7 +470,8 @@ def build(template_path, repo, variant="strict", inline=None):
                     ht = [t.text for t in R.lex(has_) if t.kind not in ("ws", "lcomment", "bcomment")]
                     spans_ = [(lo_, match_close(body, lo_)) for lo_ in loops]
                     def _has(lo_, hi_):
-                        bt = [t.text for t in body[lo_:hi_] if t.kind not in ("ws", "lcomment", "bcomment")]
+                        # header (from the loop keyword) + body
+                        bt = R.loop_header(body, lo_) + [t.text for t in body[lo_:hi_] if t.kind not in ("ws", "lcomment", "bcomment")]
                         return any(bt[q:q + len(ht)] == ht for q in range(len(bt) - len(ht) + 1))
                     with_ = [(lo_, hi_) for (lo_, hi_) in spans_ if _has(lo_, hi_)]
                     inner_ = [(lo_, hi_) for (lo_, hi_) in with_ if not any(lo_ < l2 and h2 < hi_ for (l2, h2) in with_)]
